@@ -5,7 +5,7 @@
 //@pin file=lrlex/src/lib/parser.rs fn=validate_start_state sha=5fad04a1130600f8
 //@pin file=lrlex/src/lib/parser.rs fn=validate_start_state_name sha=66b2134cf6b64e66
 //@pin file=lrlex/src/lib/parser.rs fn=parse_start_state_ops sha=d3d14a9de1aad6b3
-//@pin file=lrlex/src/lib/parser.rs fn=unescape sha=f4f017907f628f25
+//@pin file=lrlex/src/lib/parser.rs fn=unescape sha=6e67076af2e6e3bd
 //@pin file=lrlex/src/lib/parser.rs fn=add_duplicate_occurrence sha=b02837fbe7096836
 //@pin file=lrlex/src/lib/parser.rs fn=get_start_state_by_name sha=cd400f97ff97934b
 //@pin file=lrlex/src/lib/parser.rs fn=matches_whitespace sha=b207bc6cc0894cff
